@@ -200,6 +200,18 @@ def run_case(case, ctx):
     chk("apply_permutation", lambda: P.apply_permutation(M, pb[..., :kp], None), lambda: _pref(M, pb[..., :kp], None), "left_partial:" + pk)
     chk("apply_permutation", lambda: P.apply_permutation(M, None, pb[..., :kp]), lambda: _pref(M, None, pb[..., :kp]), "right_partial:" + pk)
     chk("apply_permutation", lambda: P.apply_permutation(DenseLinearOperator(M), pb, pb[..., :kp]), lambda: _pref(M, pb, pb[..., :kp]), "operator:" + pk)
+    # rectangular matrices (the library permutes the rows of its n x k pivoted-Cholesky factors this way): row and column permutations of
+    # different lengths, each alone and both
+    n2 = rng.choice([x for x in (1, 2, 3, 5, 7) if x != n])
+    Mr = randn(*batch, n, n2)
+    cperm = torch.argsort(torch.rand((*batch, n2), generator=g), dim=-1)
+    cb = cperm if pb.dim() > 1 else cperm[(0,) * len(batch)]
+    kc = rng.randint(1, n2)
+    rk = ("tall" if n > n2 else "fat") + ":" + pk
+    chk("apply_permutation", lambda: P.apply_permutation(Mr, pb, None), lambda: _pref(Mr, pb, None), "rect_left:" + rk)
+    chk("apply_permutation", lambda: P.apply_permutation(Mr, None, cb), lambda: _pref(Mr, None, cb), "rect_right:" + rk)
+    chk("apply_permutation", lambda: P.apply_permutation(Mr, pb[..., :kp], cb[..., :kc]), lambda: _pref(Mr, pb[..., :kp], cb[..., :kc]), "rect_both_partial:" + rk)
+    chk("apply_permutation", lambda: P.apply_permutation(Mr, None, cb[..., :kc]), lambda: _pref(Mr, None, cb[..., :kc]), "rect_right_partial:" + rk)
     chk("inverse_permutation", lambda: torch.gather(perm, -1, P.inverse_permutation(perm)).double(),
         lambda: torch.arange(n).expand(*batch, n).double(), "inverse")
     # ---------------- QR / pseudo-inverse
@@ -263,8 +275,14 @@ def run_case(case, ctx):
             if not neardef:
                 chk("stable_qr", lambda: Q.mT @ Q, lambda: torch.eye(cc, dtype=dt).expand(*batch, cc, cc), "QtQ=I:" + shape_kind, tol_=tol * 100)
     if not neardef:
-        ptol = 1e-7 if dt == torch.float64 else 1e-2
-        chk("stable_pinverse", lambda: stable_pinverse(Mq), lambda: torch.linalg.pinv(Mq.double()).to(dt), "pinv:" + shape_kind, tol_=ptol)
+        # forward error of a pseudo-inverse grows with the condition number (a random matrix is occasionally ill-conditioned by chance)
+        sv = torch.linalg.svdvals(Mq.double())
+        cond = float((sv[..., 0] / sv[..., -1].clamp_min(1e-300)).max())
+        ptol = max(1e-7 if dt == torch.float64 else 1e-2, 50 * cond * float(torch.finfo(dt).eps))
+        if ptol > 0.1:
+            ctx.stat("pinverse_ill_conditioned_by_chance(not judged)")
+        else:
+            chk("stable_pinverse", lambda: stable_pinverse(Mq), lambda: torch.linalg.pinv(Mq.double()).to(dt), "pinv:" + shape_kind, tol_=ptol)
     elif dt == torch.float64:
         # near rank deficiency: Moore-Penrose residual identity A A^+ A = A only (f32: the jittered R has
         # condition ~1e6 >= 1/eps, nothing is decidable)
